@@ -572,6 +572,8 @@ pub fn site_class_of(key: &str, value: &str) -> String {
 pub struct HistoryCfg {
     pub alphabet: u32,
     pub max_len: usize,
+    /// bit k set = encoding number k goes through `emit_wasm` (to a scratch file) instead of `encode` (C05)
+    pub emit_mask: u8,
 }
 
 pub struct Outcome {
@@ -795,13 +797,26 @@ pub fn run_history_with_plan(g: &GenModule, rng: &mut Rng, cfg: &HistoryCfg, enc
     if call_panic.is_some() {
         return Ok(Outcome { model, encoded: Err(PanicInfo::default()), call_panic, ops_done: done, second: None, third: None });
     }
-    let encoded = catch(|| module.encode());
+    let emit_mask = cfg.emit_mask;
+    let mut enc = |k: u8, module: &mut Module| {
+        if emit_mask & (1 << k) != 0 {
+            let dir = format!("{}/out/run", std::env::var("VERIF_DIR").unwrap_or_else(|_| "/verif".into()));
+            let _ = std::fs::create_dir_all(&dir);
+            let path = format!("{}/emit-h-{}.wasm", dir, std::process::id());
+            let r = catch(|| module.emit_wasm(&path).map(|_| std::fs::read(&path).unwrap_or_default()).unwrap_or_default());
+            let _ = std::fs::remove_file(&path);
+            r
+        } else {
+            catch(|| module.encode())
+        }
+    };
+    let encoded = enc(0, &mut module);
     let mut second = None;
     let mut third = None;
     if encodes >= 2 && encoded.is_ok() {
-        second = Some(catch(|| module.encode()));
+        second = Some(enc(1, &mut module));
         if encodes >= 3 && second.as_ref().map(|r| r.is_ok()).unwrap_or(false) {
-            third = Some(catch(|| module.encode()));
+            third = Some(enc(2, &mut module));
         }
     }
     Ok(Outcome { model, encoded, call_panic: None, ops_done: done, second, third })
